@@ -36,6 +36,34 @@ def main(tier):
                     dict(engine="many", mode="sources", detail=viol["detail"]))
     ev["source_histories"] = dict(stacks_ok=sres["stacks_ok"])
 
+    # code -> spec on histories this framework did not write: every ArchiveWriter of the repository's own test suite
+    # (unit tests, C binding tests, every `mlar` process of the integration tests), entry hooks H4, TraceWriter
+    from lib.suitetrace import load_writers, to_trace
+    tdir, sinfo = record_suite("c09-suite", ["--workspace"], min_files=20, timeout=2400)
+    tp = _os.path.join(workdir("c09-suite-trace"), "writers.ndjson")
+    st = to_trace(load_writers(tdir), tp)
+    if st["writers"] < 30 or st["calls"].get("start", 0) < 500 or st["calls"].get("finalize", 0) < 30:
+        raise ToolError(f"suite traces are too thin to mean anything: {st}")
+    acc, tinfo, tres = validate_trace("TraceWriter", "TraceWriter.cfg", tp, "c09-suite", timeout=2400, heap="8g")
+    ev["tlc"].append(dict(module="TraceWriter", cfg="TraceWriter.cfg", generated=tres.generated, distinct=tres.distinct,
+                          violation=tres.violation))
+    if tres.violation:
+        tlc_counterexample_violation(v, tres, "TraceWriter", "TraceWriter.cfg")
+    elif not tinfo or tinfo.get("matched") != tinfo.get("len"):
+        raise ToolError(f"TraceWriter did not consume {tp}: {tres.error_text[:500]}")
+    sdrift = 0
+    for b in (tinfo or {}).get("bad", []):
+        if b["after"].get("res") in ("EState", "EDup", "ETooLong"):
+            # the model refused the previous call; the state logged at the next call's entry is not the one before it
+            v.violation(dict(check="suite-trace", kind="refused-call-changed-state", stack=None, op=b["after"].get("op"),
+                             name=None, src=b["after"]["res"]),
+                        dict(engine="suite", trace=tp, line=b["line"], model=b["model"], got=b["got"], after=b["after"]))
+        else:
+            sdrift += 1
+            log(f"MODEL-DRIFT module=TraceWriter line={b['line']} model={b['model']} got={b['got']} after={b['after']}")
+    ev["suite_traces"] = dict(**sinfo, **st, model_drifts=sdrift, events_matched=(tinfo or {}).get("matched"))
+    ev["drifts"] = ev.get("drifts", 0) + sdrift
+
     class _R:
         distinct, generated = tot_states, tot_trans
     res = _R
@@ -44,7 +72,7 @@ def main(tier):
     nrefused = sum(b for _, b in all_edges)
     cov = dict(states=res.distinct, transitions=res.generated,
                traces_validated_against_impl=ev.get("runs", 0), samples=ev.get("samples", [])[:3] or ["none"],
-               edges_exported=nedges, source_histories=ev.get("source_histories"), refused_edges_in_model=nrefused,
+               edges_exported=nedges, source_histories=ev.get("source_histories"), suite_traces=ev.get("suite_traces"), refused_edges_in_model=nrefused,
                refused_calls_checked_on_code=ev.get("refused_calls", 0), steps_replayed=ev.get("steps", 0),
                hidden_state_steps_compared=ev.get("hidden_compared", 0), archives_read_back=ev.get("readbacks", 0),
                drift=ev.get("drifts", 0), drift_samples=ev.get("drift_samples", [])[:3], tlc_runs=ev["tlc"],
